@@ -13,6 +13,10 @@ Oracle: the RECIPE of E denoted independently (vf/c24_den.py) in 60-digit mpmath
 of the mapping; derivatives by the limit definition (nested central differences at 60 digits).  A returned value
 that differs is a violation keyed by the class of the smallest sub-expression whose own value is wrong; an
 exception is `rejected`; ties, branch cuts, kinks below derivatives and ill-conditioning are `inconclusive`.
+Three more things are never a value and are reported with their own keys: a returned object that is neither a number
+nor a UFL expression (non-numeric-result), a KeyError for an Index although every free index was given a value
+(index-value-lost), and E(x, mapping, c) raising where evaluate() of expand_derivatives(E) returns the right number
+(call-raises-where-evaluate-returns).  Whole-value calls of tensor valued expressions are keyed apart (whole-value/...).
 """
 
 import itertools
@@ -64,8 +68,8 @@ NCASES = {"quick": 16000, "thorough": 240000}
 CASE_TIMEOUT = 30.0
 EVAL_COUNTER = "values_agree"
 FLOORS = {
-    "quick": {"held": 4000, "values_agree": 42000, "held_with_derivative": 550, "held_open": 800, "held_tensor": 1400, "held_complex": 1100},
-    "thorough": {"held": 78000, "values_agree": 800000, "held_with_derivative": 10000, "held_open": 15000, "held_tensor": 27000, "held_complex": 21000},
+    "quick": {"held": 5000, "values_agree": 52000, "held_with_derivative": 720, "held_open": 1050, "held_tensor": 1650, "held_complex": 1500},
+    "thorough": {"held": 78000, "values_agree": 1100000, "held_with_derivative": 11500, "held_open": 16000, "held_tensor": 27000, "held_complex": 23000},
 }
 _CORE_OPS = [
     "add", "sub", "mul", "div", "pow", "neg", "abs", "getitem", "stack", "as_tensor_idx", "conditional", "cmp:lt", "cmp:gt", "cmp:le", "cmp:ge",
@@ -264,6 +268,7 @@ def observe(ctx, recipe, expr, pool, points, mapping, rng, kinds, record=True, m
             ctx.count("expand_rejected")
             ctx.covered("rejected_with", f"expand_derivatives:{type(ex).__name__}")
         return out, None
+    outcome = {}
     for pi, (x, variant) in enumerate(points):
         J = Judge(pool, recipe, x, ctx.seed * 1000003 + pi)
         xarg = xarg_of(x, variant)
@@ -300,6 +305,7 @@ def observe(ctx, recipe, expr, pool, points, mapping, rng, kinds, record=True, m
                         continue
                     except Exception as ex:
                         out.append(("rejected", {"kind": kind, "exc": type(ex).__name__, "msg": str(ex)[:80]}))
+                        outcome[(kind, pi, comp, vals)] = ("rejected", f"{type(ex).__name__}: {str(ex)[:80]}", x, variant)
                         continue
                     try:
                         got, how = as_number(res)
@@ -318,7 +324,16 @@ def observe(ctx, recipe, expr, pool, points, mapping, rng, kinds, record=True, m
                         ctx.count("ufl_constant_results")
                     idx = tuple(comp) + tuple(vals)
                     v, err, exp = J.judge(got, idx)
+                    outcome[(kind, pi, comp, vals)] = (v, got, x, variant)
                     out.append((v, {"kind": kind, "x": x, "xform": variant, "comp": comp, "index_values": dict(zip(fi_names, vals)), "got": got, "expected": exp, "err": err, "point": pi}))
+        # Expr.__call__ is documented as "evaluate derivatives first, then evaluate recursively": where the evaluate
+        # methods return the right number for the preprocessed expression, the call must not raise
+        for (kind, p2, comp, vals), oc in list(outcome.items()):
+            if kind == "call" and p2 == pi and oc[0] == "rejected":
+                ev = outcome.get(("evaluate", pi, comp, vals))
+                if ev is not None and ev[0] == "agree":
+                    out.append(("callraises", {"kind": "call", "x": x, "xform": variant, "comp": comp, "index_values": {}, "got": oc[1], "expected": None,
+                                               "err": float("nan"), "point": pi, "evaluate_value": ev[1]}))
         # whole-value call of a tensor valued expression (no component given)
         if "whole" in kinds and recipe.shape and not fi_names and pi == 0:
             if record:
@@ -511,34 +526,42 @@ def case(ctx, i, rng):
             ctx.covered("symbolic_results", info["type"])
         if v.startswith("whole-"):
             ctx.covered("whole_value_outcomes", v + ":" + type(expr).__name__)
-    bad = [info for v, info in res if v in ("disagree", "whole-disagree")] or [info for v, info in res if v in ("nonnumeric", "lostindex")]
+    bad = [info for v, info in res if v in ("disagree", "whole-disagree")] or [info for v, info in res if v in ("nonnumeric", "lostindex", "callraises")]
     if bad:
         ctx.count("violated")
         b = bad[0]
         whole = b["kind"] == "whole"
-        sub, sube, winfo = localise(ctx, recipe, pool, b, mapping, rng)
-        if sub is None:
+        if "evaluate_value" in b:
+            # consistency of __call__ with the evaluate methods: keyed by the exception, nothing to localise
             sub, sube, winfo = recipe, expr, b
-        cls = type(sube).__name__
-        suffix = ""
-        # does the disagreement need numpy-typed values in the mapping?
-        if any("np" in st for st in pool.style.values()):
-            pm = pool.mapping(no_derivatives=False, python_only=True)
-            kind = b["kind"] if not whole else "whole"
-            r2, _ = observe(ctx, sub, sube, pool, [(b["x"], b.get("xform", "tuple"))], pm, rng, [kind if not sub.fi else "evaluate"], record=False)
-            if r2 and not any(v in ("disagree", "whole-disagree", "nonnumeric", "lostindex") for v, _ in r2):
-                suffix = "/numpy-typed-mapping-value"
-                finer = numpy_culprit(sube, xarg_of(b["x"], b.get("xform", "tuple")), mapping, pm)
-                if finer is not None:
-                    cls = finer
-        if reuses_bound_index(sub):
+            cls = b["got"].split(":")[0]
+            suffix = ""
+        else:
+            sub, sube, winfo = localise(ctx, recipe, pool, b, mapping, rng)
+            if sub is None:
+                sub, sube, winfo = recipe, expr, b
+            cls = type(sube).__name__
+            suffix = ""
+            # does the disagreement need numpy-typed values in the mapping?
+            if any("np" in st for st in pool.style.values()):
+                pm = pool.mapping(no_derivatives=False, python_only=True)
+                kind = b["kind"] if not whole else "whole"
+                r2, _ = observe(ctx, sub, sube, pool, [(b["x"], b.get("xform", "tuple"))], pm, rng, [kind if not sub.fi else "evaluate"], record=False)
+                if r2 and not any(v in ("disagree", "whole-disagree", "nonnumeric", "lostindex") for v, _ in r2):
+                    suffix = "/numpy-typed-mapping-value"
+                    finer = numpy_culprit(sube, xarg_of(b["x"], b.get("xform", "tuple")), mapping, pm)
+                    if finer is not None:
+                        cls = finer
+        if reuses_bound_index(sub) and "evaluate_value" not in b:
             suffix += "/index-also-bound-inside-operand"
         nonnum = winfo.get("expected") is None
         lost = nonnum and str(winfo["got"]).startswith("KeyError(")
-        key = f"C24/{('index-value-lost' if lost else 'non-numeric-result') if nonnum else ('whole-value' if whole else 'wrong-value')}/{cls}{suffix}"
+        craise = nonnum and "evaluate_value" in winfo
+        key = f"C24/{('call-raises-where-evaluate-returns' if craise else 'index-value-lost' if lost else 'non-numeric-result') if nonnum else ('whole-value' if whole else 'wrong-value')}/{cls}{suffix}"
         ctx.violation(
             key,
-            (f"{b['kind']} event: evaluation of {cls} loses the value of an index it was given: {winfo['got']} at x={b['x']}" if lost else
+            (f"call event: calling a {type(expr).__name__} expression raises {winfo['got']} although evaluate() of the preprocessed expression returns the right value {winfo['evaluate_value']!r} at x={b['x']}" if craise else
+             f"{b['kind']} event: evaluation of {cls} loses the value of an index it was given: {winfo['got']} at x={b['x']}" if lost else
              f"{b['kind']} event: {cls} evaluates to the non-numeric object {winfo['got']} at x={b['x']}" if nonnum else
              f"{b['kind']} event: {cls} evaluates to {winfo['got']!r}, mathematical value {complex(winfo['expected'])!r} (|diff| {winfo['err']:.3g}) at x={b['x']}"),
             {"culprit_recipe": D.show(sub, 600), "culprit_expr": str(sube)[:600], "whole_recipe": D.show(recipe, 900), "expr": str(expr)[:900], "component": repr(winfo.get("comp")),
